@@ -280,6 +280,13 @@ var overrides = map[string]extFn{
 		b := strBytes(a[0])
 		return append([]value{}, b...)
 	},
+	"luahelper-lsp/langserver/filefolder.IsFileExist": func(e *Engine, _ *frame, _ *ssa.Function, a []value) value {
+		_, ok := e.vfs[e.needStr(a[0], "IsFileExist")]
+		return ok
+	},
+	"luahelper-lsp/langserver/filefolder.IsDirExist": func(e *Engine, _ *frame, _ *ssa.Function, a []value) value {
+		return e.vfsIsDir(e.needStr(a[0], "IsDirExist"))
+	},
 	"luahelper-lsp/langserver/log.Debug": func(*Engine, *frame, *ssa.Function, []value) value { return nil },
 	"luahelper-lsp/langserver/log.Error": func(*Engine, *frame, *ssa.Function, []value) value { return nil },
 }
@@ -311,7 +318,27 @@ func sortModel(e *Engine, caller *frame, _ *ssa.Function, a []value) value {
 	return nil
 }
 
+func vfsRead(e *Engine, _ *frame, _ *ssa.Function, a []value) value {
+	name := e.needStr(a[0], "ReadFile")
+	if c, ok := e.vfs[name]; ok {
+		return tuple{append([]value(nil), c...), iface{}}
+	}
+	return tuple{[]value(nil), mkError("open " + name + ": no such file or directory")}
+}
+
+func (e *Engine) vfsIsDir(path string) bool {
+	p := strings.TrimSuffix(path, "/") + "/"
+	for name := range e.vfs {
+		if strings.HasPrefix(name, p) {
+			return true
+		}
+	}
+	return false
+}
+
 var natives = map[string]extFn{
+	"io/ioutil.ReadFile": vfsRead,
+	"os.ReadFile":        vfsRead,
 	"context.Background": func(e *Engine, _ *frame, fn *ssa.Function, a []value) value { return iface{t: errorT, v: "ctx"} },
 	"net/url.QueryUnescape": func(e *Engine, _ *frame, fn *ssa.Function, a []value) value {
 		return tuple{a[0], iface{}}
